@@ -24,6 +24,28 @@ impl log::Log for StderrLog {
 }
 static LOGGER: StderrLog = StderrLog;
 
+/// formats every record into nothing: with the level raised (per run, see util::sink_logging) the argument
+/// expressions and Display implementations of the node's log statements are evaluated as they are on a node that
+/// runs with debug logging, without the output
+struct SinkLog;
+struct Null;
+impl std::fmt::Write for Null {
+    fn write_str(&mut self, _s: &str) -> std::fmt::Result {
+        Ok(())
+    }
+}
+impl log::Log for SinkLog {
+    fn enabled(&self, _m: &log::Metadata) -> bool {
+        true
+    }
+    fn log(&self, r: &log::Record) {
+        use std::fmt::Write;
+        let _ = write!(Null, "{}", r.args());
+    }
+    fn flush(&self) {}
+}
+static SINK: SinkLog = SinkLog;
+
 fn main() {
     if let Ok(l) = std::env::var("VERIF_LOG") {
         let _ = log::set_logger(&LOGGER);
@@ -33,6 +55,10 @@ fn main() {
             "info" => log::LevelFilter::Info,
             _ => log::LevelFilter::Warn,
         });
+    } else {
+        // error-level statements are evaluated on every production node whatever its log configuration
+        let _ = log::set_logger(&SINK);
+        log::set_max_level(log::LevelFilter::Error);
     }
     let args: Vec<String> = std::env::args().collect();
     if args.len() < 2 {
